@@ -106,7 +106,7 @@ func uniq(s []string) []string {
 func C11(p *ir.Program, r *report.R) {
 	c := C{p, r}
 	r.Floor = 110
-	r.Explain = "Decided: (registry) every ser.RegisterConcrete call in the module uses a distinct constant name and a distinct type, from init-time code; for every message interface the set of registered concrete types equals the set of case types of the handler's type switch (both directions, exemptions listed); (dispatch) encoder and decoder kind dispatch cover the same classes in the same precedence for the special cases; (canonical maps) the map writer sorts the keys before emitting on every path and the key order is strict byte order; (bounded allocation) in Stream.Kind a size beyond the remaining input / enclosing list sets the sticky error, every allocation in the decoder whose size derives from the stream is dominated by the no-error result of Kind or by an explicit bound, slice growth is incremental, the map decoder bounds its entry count; every decode entry point in the module is given a bytes.Reader or a non-zero limit; (no panic on input) the set of explicit panic sites and unchecked type assertions reachable from the decode entry points inside libs/ser equals the reviewed table. NOT decided: round-trip equality, canonical integer forms, equality of decoded values; implicit runtime panics inside reflect operations other than allocation sizes."
+	r.Explain = "Decided: (registry) every ser.RegisterConcrete call in the module uses a distinct constant name and a distinct type, from init-time code; for every message interface the set of registered concrete types equals the set of case types of the handler's type switch (both directions, exemptions listed); (dispatch) encoder and decoder kind dispatch cover the same classes in the same precedence for the special cases; (canonical maps) the map writer sorts the keys before emitting on every path and the key order is strict byte order; (bounded allocation) in Stream.Kind a size beyond the remaining input / enclosing list sets the sticky error, every allocation in the decoder whose size derives from the stream is dominated by the no-error result of Kind or by an explicit bound, slice growth is incremental, the map decoder bounds its entry count; every decode entry point in the module is given a bytes.Reader or a non-zero limit; (no panic on input) the set of explicit panic sites and unchecked type assertions reachable from the decode entry points inside libs/ser equals the reviewed table. ADDED after seeded-change testing: Stream.Kind: after a successful readKind no path reaches the return without an error or the established bound (size <= rest of list / remaining limited input), whatever the kind; DecodeBytes/DecodeBytesWithType return success only with an exhausted reader (one value per byte string). NOT decided: round-trip equality, canonical integer forms, equality of decoded values; implicit runtime panics inside reflect operations other than allocation sizes."
 	r.Trusted = []string{"package reflect, encoding/json", "sort.Sort"}
 
 	serPath := ir.Module + "/libs/ser"
@@ -307,6 +307,36 @@ func C11(p *ir.Program, r *report.R) {
 	// ---- canonical maps -----------------------------------------------------------------
 	serCanonicalMaps(p, r)
 
+	// ---- one value per byte string -----------------------------------------------------------
+	// The slice decoders accept exactly one value: success is returned only when the reader is
+	// exhausted (trailing bytes would make two different inputs decode to the same value).
+	for _, fnn := range []string{"DecodeBytes", "DecodeBytesWithType"} {
+		fn := p.Func("libs/ser", fnn)
+		n := 0
+		for _, rt := range ir.Returns(fn) {
+			if ir.AbstractResult(rt.Results[0]) != "nil" {
+				continue
+			}
+			n++
+			c.Guards("ser."+fnn, "return nil", rt.Instr,
+				G{"no-trailing-bytes", "le(bytes.Reader.Len(bytes.NewReader(b)),0) || eq(bytes.Reader.Len(bytes.NewReader(b)),0)"},
+				G{"decoded", "eq(ser.Stream.Decode*(ser.NewStream(bytes.NewReader(b),len(b)),val),nil)"})
+		}
+		// a success return that is not the nil constant (an error value passed through) must also be preceded by the test
+		for _, rt := range ir.Returns(fn) {
+			if ir.AbstractResult(rt.Results[0]) == "nil" || strings.HasPrefix(ir.AbstractResult(rt.Results[0]), "nonnil:") {
+				continue
+			}
+			v := ir.Render(rt.Results[0])
+			if ir.HasFact(ir.FactsAt(rt.Instr), "!eq("+v+",nil)") {
+				continue // the failure branch returning the decode error
+			}
+			n++
+			r.Check("K1", "ser."+fnn+"/return passthrough/no-trailing-bytes", p.InstrPos(rt.Instr), false, "a result that may be nil is returned without the exhausted-reader test: "+short(v, 120))
+		}
+		c.MustFind("K1", "ser."+fnn+"/return nil", fn, n, "success return")
+	}
+
 	// ---- bounded allocation -----------------------------------------------------------------
 	{
 		kd := p.Func("libs/ser", "Stream.Kind")
@@ -327,6 +357,33 @@ func C11(p *ir.Program, r *report.R) {
 		}
 		r.Check("K1", "ser.(*Stream).Kind/top-level-bound", p.Pos(kd.Pos()), top, "a top-level value larger than the remaining (limited) input sets ErrValueTooLarge")
 		r.Check("K1", "ser.(*Stream).Kind/in-list-bound", p.Pos(kd.Pos()), inl, "a value larger than the rest of its list sets ErrElemTooLarge")
+		// exactness: after a successful readKind there is no way to the return that neither sets one
+		// of the two errors nor has established the bound (size <= rest of list / remaining input, or an
+		// unlimited top-level stream) — whatever the kind of the value
+		for _, rk := range ir.Calls(kd, "ser.Stream.readKind") {
+			found, hit, tr := ir.FindPath(ir.PathQuery{From: ir.At(rk.(ssa.Instruction)), Target: ir.IsReturn,
+				Avoid: func(in ssa.Instruction) bool {
+					st, ok := in.(*ssa.Store)
+					if !ok {
+						return false
+					}
+					v := ir.Render(st.Val)
+					return v == "ser.ErrElemTooLarge" || v == "ser.ErrValueTooLarge"
+				},
+				AvoidEdge: func(atoms []string) bool {
+					for _, a := range atoms {
+						if a == "!eq(s.kinderr,nil)" || ir.Match("le(s.size,(*.size - *.pos))", a) || a == "le(s.size,s.remaining)" || a == "!s.limited" {
+							return true
+						}
+					}
+					return false
+				}})
+			d := "every successful kind read is bounded by the rest of its list or of the limited input before Kind returns"
+			if found {
+				d += fmt.Sprintf(" — but the return at %s is reached without error and without the bound, blocks %v", p.InstrPos(hit), tr)
+			}
+			r.Check("K1", "ser.(*Stream).Kind/bound-on-every-path", p.InstrPos(rk.(ssa.Instruction)), !found, d)
+		}
 		okRet := false
 		for _, rt := range ir.Returns(kd) {
 			if ir.Render(rt.Results[2]) == "s.kinderr" {
